@@ -15,8 +15,17 @@ type Tier struct {
 	F    int // scale factor for case counts
 }
 
-func TierOf(name string) Tier {
+// thoroughFactor: how many times the quick case lists the thorough tier runs, per
+// property (sized so that each thorough check takes minutes, not seconds, on 16 cores).
+var thoroughFactor = map[string]int{
+	"C01": 100, "C02": 60, "C04": 300, "C06": 100, "C08": 300, "C13": 300, "C14": 200, "C15": 150, "C11": 40,
+}
+
+func TierOf(name, prop string) Tier {
 	if name == "thorough" {
+		if f, ok := thoroughFactor[prop]; ok {
+			return Tier{"thorough", f}
+		}
 		return Tier{"thorough", 30}
 	}
 	return Tier{"quick", 1}
